@@ -9,9 +9,18 @@ Import RecordSetNotations.
 Local Open Scope Z_scope.
 
 (** the relation inside an event: the tracker's effective holds at the model's instant, minus the written-off [D] *)
+(** FRESH: the keys and session ids the oracle has seen were drawn (ghost [st_used]), and the key of a parked call
+    has not been seen in a grant yet *)
+Definition KI (s : sstate) (t : tstate) : Prop :=
+  (∀ k, k ∈ t_keys t → k ∈ st_used s) ∧ (∀ x, x ∈ t_sids t → x ∈ st_used s) ∧
+  (∀ w, w ∈ st_waiters s → w_key w ∉ t_keys t).
+
 Definition LR (s : sstate) (D : list (str * str)) (t : tstate) : Prop :=
   HR (st_locks s) (st_sessions s) (st_timers s) True D (ef (st_now s) (t_holds t)) ∧
-  Forall2 WR (st_waiters s) (t_waiters t).
+  Forall2 WR (st_waiters s) (t_waiters t) ∧ KI s t.
+
+Lemma KI_frame s s' t : KI s t → (∀ k, k ∈ st_used s → k ∈ st_used s') → (∀ w, w ∈ st_waiters s' → w ∈ st_waiters s) → KI s' t.
+Proof. intros (H1 & H2 & H3) Hu Hw. split_and!; auto. Qed.
 
 Definition Dminus (p : str * str) (D : list (str * str)) : list (str * str) := filter (λ d, d ≠ p) D.
 
@@ -46,13 +55,13 @@ Qed.
 (** ** Frame: the parts of the model state [LR] does not read may change *)
 
 Lemma LR_frame s s' D t :
-  LR s D t → st_locks s' = st_locks s → st_waiters s' = st_waiters s → st_now s' = st_now s →
+  LR s D t → st_locks s' = st_locks s → st_waiters s' = st_waiters s → st_now s' = st_now s → st_used s' = st_used s →
   (∀ h l, h ∈ ef (st_now s) (t_holds t) → st_sessions s !! h_sid h = Some l → hold_clock h ∈ l →
       ∃ l', st_sessions s' !! h_sid h = Some l' ∧ hold_clock h ∈ l') →
   (∀ h, h ∈ ef (st_now s) (t_holds t) → tdl (st_timers s') (h_name h) (h_key h) = tdl (st_timers s) (h_name h) (h_key h)) →
   LR s' D t.
 Proof.
-  intros [HH HW] EL EW En HS HT. split; [|by rewrite EW]. rewrite EL, En.
+  intros (HH & HW & HK) EL EW En EU HS HT. split; [|split; [by rewrite EW|eapply KI_frame; [exact HK|by rewrite EU|by rewrite EW]]]. rewrite EL, En.
   eapply HR_change; [exact HH|..].
   - intros h Hh. by apply (hr_tab _ _ _ _ _ _ HH).
   - intros c Hc. destruct (hr_all _ _ _ _ _ _ HH c Hc) as [?|(h & Hh & <-)]; [by left|].
@@ -65,12 +74,12 @@ Qed.
 (** removing the session entries and the lease timer of a pair that is no longer in the table *)
 Lemma LR_cleanup cfg n k s s' D t :
   LR s D t → ¬ livel (st_locks s) n k →
-  st_locks s' = st_locks s → st_waiters s' = st_waiters s → st_now s' = st_now s →
+  st_locks s' = st_locks s → st_waiters s' = st_waiters s → st_now s' = st_now s → st_used s' = st_used s →
   (st_sessions s' = st_sessions s ∨ st_sessions s' = st_sessions (remove_lock_entry cfg n k s)) →
   (st_timers s' = st_timers s ∨ st_timers s' = delete (tkey n k) (st_timers s)) →
   LR s' D t.
 Proof.
-  intros HL Hnl EL EW En HS HT. pose proof HL as [HH _].
+  intros HL Hnl EL EW En EU HS HT. pose proof HL as [HH _].
   assert (∀ h, h ∈ ef (st_now s) (t_holds t) → hkey h ≠ (n, k)) as Hne.
   { intros h Hh E. apply Hnl. destruct (hr_tab _ _ _ _ _ _ HH h Hh) as [Hi _]. apply intab_livel in Hi.
     unfold hkey in E. injection E as <- <-. exact Hi. }
@@ -96,7 +105,7 @@ Section step.
     (∀ c, c ∈ comps o → c_at c = st_now s ∧ rlock c ∧ c_wid c ∈ w_id <$> st_waiters s ∧ c_wid c ∉ w_id <$> st_waiters s2) ∧
     (∀ w, w ∈ st_waiters s2 → w ∈ st_waiters s) ∧ NoDup (c_wid <$> comps o) ∧ NoDup (w_id <$> st_waiters s2).
   Proof.
-    intros Hm HT HD [HH HW] HX Hpend t'.
+    intros Hm HT HD (HH & HW & HK) HX Hpend t'.
     destruct (hr_D _ _ _ _ _ _ HH _ _ HD) as (ob & Ho & Hk).
     destruct (ti_cap _ _ _ _ _ HT _ _ Ho) as (Hsz & Hlen & Hnd).
     destruct (remove_first_nodup k _ Hnd) as [Hnd' Hkn].
@@ -121,7 +130,7 @@ Section step.
     { intros [[_ Hk']|[? _]]%livel_insert; done. }
     destruct Hm as [[-> ->]|(w & rest & Hw & Hcap & -> & ->)].
     - (* nobody to hand the capacity to *)
-      split_and!; [split; [exact HH1|exact HW]|done|done|done|by intros c ?%elem_of_nil|done|constructor|apply (ti_ids _ _ _ _ _ HT)].
+      split_and!; [split; [exact HH1|split; [exact HW|exact HK]]|done|done|done|by intros c ?%elem_of_nil|done|constructor|apply (ti_ids _ _ _ _ _ HT)].
     - apply name_waiters_cons in Hw as Hw'. destruct Hw' as [HwW Hwn].
       destruct (ti_waiters _ _ _ _ _ HT w HwW) as (o1 & Ho1 & _ & Hwsz). rewrite Hwn in Ho1. fold L in Ho1. simplify_eq.
       destruct (ti_used_waiters _ _ _ _ _ HT w HwW) as [_ Hwdead].
@@ -134,6 +143,7 @@ Section step.
         pose proof (hr_count_le _ _ _ _ _ _ HH (w_name w) ob k Ho HD Hk). fold ks in H. lia. }
       subst t'. simpl. unfold done1, c_wid, c_at, c_resp. simpl. erewrite wd_known by exact Hf. simpl.
       unfold grant_flags. rewrite Hcapok, Hfifo. simpl.
+      destruct HK as (HK1 & HK2 & HK3). rewrite (bool_decide_eq_false_2 (w_key w ∈ t_keys t)) by (by apply HK3). simpl.
       unfold LR. rewrite !rg_locks, rg_sessions, rg_timers, !rg_waiters, !rg_now. simpl.
       set (L2 := <[w_name w := LockObj (lo_size ob) (ks ++ [w_key w]) (st_now s)]> L).
       assert (L2 = <[w_name w := LockObj (lo_size ob) (ks ++ [w_key w]) (st_now s)]> L1) as EL2.
@@ -164,6 +174,11 @@ Section step.
               rewrite lookup_insert_ne; [done|]. intros [En Ek]%tkey_inj. apply Hnlw.
               destruct (hr_tab _ _ _ _ _ _ HH1 h Hh) as [Hi _]. apply intab_livel in Hi. simpl in Hi. by rewrite En, Ek.
       + by apply WR_filter_id.
+      + unfold KI. rewrite rg_used, rg_waiters. simpl. split_and!.
+        * intros k' [->|Hk']%elem_of_cons; [|by apply HK1]. by destruct (ti_used_waiters _ _ _ _ _ HT w HwW).
+        * exact HK2.
+        * intros w' [Hne Hw']%elem_of_list_filter [E|Hk']%elem_of_cons; [|by apply (HK3 w')].
+          apply bool_decide_unpack in Hne. apply Hne. f_equal. eapply (NoDup_fmap_inj_on w_key); eauto. eapply ti_wkeys; eauto.
       + intros [[_ Hk']|[? _]]%livel_insert; [|done]. simpl in Hk'. apply elem_of_app in Hk' as [?|Hk']; [done|].
         apply elem_of_list_singleton in Hk'. apply (Hwdead (w_name w)). exists ob. split; [done|]. by rewrite <- Hk'.
       + intros c ->%elem_of_list_singleton. unfold c_at, c_wid, rlock, c_resp. simpl. split_and!; try done.
@@ -182,12 +197,13 @@ Section step.
     let t' := done_list cfg i cause (comps o) t in
     LR s' D t' ∧ fails_ok X t'.
   Proof.
-    intros Hnd Hw [HH HW] HX He. simpl.
+    intros Hnd Hw (HH & HW & HK) HX He. simpl.
     destruct (WR_findw _ _ _ HW Hnd Hw) as (tw & Hf & (Hid & Hnm & Hsid & Hsize & Hlt & Hdl)).
     unfold done1, c_wid, c_at, c_resp. simpl. erewrite wd_known by exact Hf. simpl.
-    split; [split; simpl|].
+    split; [split; [|split]; simpl|].
     - rewrite app_nil_r, ef_ef by lia. done.
     - by apply WR_filter_id.
+    - eapply KI_frame; [exact HK|done|]. by intros w' [_ ?]%elem_of_list_filter.
     - intros j tag. simpl. rewrite elem_of_app. intros [Hj|Hj]; [|by apply HX]. exfalso.
       destruct He as [[-> Hd]|[Hne ->]].
       + rewrite <- Hdl, Hd, bool_decide_eq_true_2 in Hj by done. by apply elem_of_nil in Hj.
